@@ -526,7 +526,7 @@ def find_fn(src, name, within=None):
     """(params [(name, type)], return type text, parsed body block) of `fn name` (inside `impl within` if given).
     The region of a `#[cfg(test)]` / `#[cfg(kani)]` module is not searched."""
     src = strip_comments(src)
-    cut = re.search(r"#\[cfg\((?:test|kani)\)\]", src)
+    cut = re.search(r"#\[cfg\((?:test|kani)\)\]\s*(?:#\[[^\]]*\]\s*)*mod\b", src)
     if cut:
         src = src[:cut.start()]
     if within:
